@@ -94,7 +94,8 @@ class Gen:
         if n not in self.vars:
             default = None
             if self.rng.chance(1, 3) and ty["k"] != "nn":
-                default = self.value_for(ty_name, depth=2, allow_var=False)
+                # `= null` is a default value like any other (the variable then IS defined when it is not provided)
+                default = {"k": "null"} if self.rng.chance(1, 4) else self.value_for(ty_name, depth=2, allow_var=False)
             dirs = [directive("dv", [arg("a", v_int("1"))])] if self.rng.chance(1, 4) else []
             self.vars[n] = vardef(n, ty, default, dirs)
         return v_var(n)
